@@ -70,6 +70,11 @@ checks["C10"]=dict(
    note="Trusted: go/types resolution; the exemption tables (walkers for composition keywords and $ref, three fresh-reference sites). NOT decided: rendering of defaults by formatScalar/formatValue (maps, non-string lists), Go/Python agreement on concrete values, that constructors compile.",
    technique="frontier taint rule (source: untyped library fields; sanitizer: unwrapJSONNumber; sinks: everything else) + sibling agreement of walkers + must-carry rule on type replacements + dominance of concreteness tests",
    design="§3.C10")
+checks["C12"]=dict(
+   text="Generator-side necessary conditions decided on the shared JSON Schema jenny: kind and scalar-kind dispatch are total (two kinds fall through to the empty schema: findings); every keyword written is valid in draft-07 and in OpenAPI 3.0 with the same value type (const, numeric exclusive bounds, type null: findings, each rejected by cog's own OpenAPI front-end); foreign `$ref`s are enqueued whenever they resolve, the closure loop runs until the queue is empty and formats each queued object through formatType on every path; property keys are field.Name, `required` exactly under field.Required, `default` exactly under Default != nil with that value; Nullable is reflected (finding), `any` does not constrain the type (finding), a map's index type is only described under a positive string test; every constraint operator is translated (!=: finding).",
+   note="Trusted: the two keyword vocabularies tabulated in c12.go. NOT decided: validity of whole documents for independent loaders, validation of arbitrary encoded Go values (only the nullable/any clauses), name collisions of foreign objects.",
+   technique="dispatch exhaustiveness + keyword/dialect table over the resolved Set(...) call sites + must-pass-through rule on the closure loop + exact-guard rules on the struct skeleton",
+   design="§3.C12")
 checks["C04"]=dict(
    text="Eight structural clauses, each a necessary condition of 'never panics / never hangs' (a reported site is a potential crash; every site reported on the pinned tree was triaged: 33 fixed in /repo, 7 recorded as findings): bounded recursion and loops through references (visited set / depth bound / leaf-kind test; closures included), no explicit panic reachable from the pipeline entry points, no unchecked single-value type assertion on `any` values, no pointer lookup used with its found-flag discarded, guarded constant indexing at the JSON-family parser frontier, kind-guarded access to kind-specific members of collection elements, consistent key derivation on probed-and-filled sets.",
    note="Trusted: the AST-level call graph (static calls, class-hierarchy interface calls, func-typed fields by stored values; func literals attributed to their enclosing function); text/template recovers panics of template functions. NOT decided: nil dereference of Type.<Kind> accessors on non-element values, index out of range on IR slices and CUE values, stack depth on deeply nested acyclic input, time/space blow-up, panics inside third-party libraries.",
